@@ -125,7 +125,7 @@ Proof. repeat split; reflexivity. Qed.
 (* "forwarded to its target host as an equivalent HTTP/1.1 request (same method, path and headers minus proxy hop-by-hop ones)":
    whenever serialize_request accepts a request - any method and target without blank or line break, any authority and field list
    as the http crate holds them - the bytes it writes are read back under the RFC 9112 grammar (Spec/Rfc9112.v) as exactly that
-   method, target (or * for OPTIONS) and version, with the fields of the request minus Proxy-Authorization and Proxy-Connection,
+   method, target and version, with the fields of the request minus Proxy-Authorization and Proxy-Connection,
    the Host field naming the request's authority (in place if the client sent one, else last), and the reading ends exactly where
    the body starts *)
 Theorem forwarded_request_head_is_equivalent :
@@ -134,7 +134,7 @@ Theorem forwarded_request_head_is_equivalent :
     (minor < 10)%N -> no_byte 32 method = true -> no_cr method = true -> no_byte 32 target = true -> no_cr target = true ->
     no_cr authority = true -> forallb hdr_ok hs = true ->
     read_request (S (length (fwd_fields authority hs))) (bytes ++ rest) =
-    Some ({| rq_method := method; rq_target := if seqb method n_options then [42]%N else target; rq_minor := minor;
+    Some ({| rq_method := method; rq_target := target; rq_minor := minor;
              rq_headers := map (fun h => (fst h, trim_ows (snd h))) (fwd_fields authority hs) |}, rest).
 Proof. exact forwarded_request_round_trip_proof. Qed.
 Print Assumptions forwarded_request_head_is_equivalent.
@@ -177,7 +177,8 @@ Theorem code_facts :
   /\ FWD_CHUNK_PREFIX_AS_MODELLED = true /\ FWD_CHUNK_SUFFIX_AS_MODELLED = true
   /\ FWD_INTERIM_TAIL_IS_PARSER_LEFTOVER = true /\ FWD_BODY_MODE_SELECTION_AS_MODELLED = true
   /\ H3_REQUEST_END_KEEPS_RESPONSE_DIRECTION = true /\ H3_SINK_WRITE_AS_MODELLED = true
-  /\ FWD_HOP_BY_HOP_WHEREVER_THEY_STAND = true /\ FWD_SERIALIZE_REQUEST_AS_MODELLED = true.
+  /\ FWD_HOP_BY_HOP_WHEREVER_THEY_STAND = true /\ FWD_SERIALIZE_REQUEST_AS_MODELLED = true
+  /\ FWD_CHUNKED_IS_FINAL_CODING_ANY_CASE = true.
 Proof. repeat split; exact eq_refl. Qed.
 Print Assumptions code_facts.
 
